@@ -189,11 +189,15 @@ def groups_of(rule):
 # T-INS/T-MOVE/T-CANON but keyed T-DIAG:..).
 PROPERTIES = {
     "C01": {
+        # reading more ages than labelled finds the same matches again: closedness is not affected (C16 is)
+        # (likewise a labelling enumerated twice, or an all-old labelling enumerated, by the semi-naive family)
+        "irrelevant_keys": ["T-PLAN:atom:age-widened", "T-SEMI:family:cover:overlap", "T-SEMI:family:cover:all-old-enumerated"],
         "rules": ["T-PLAN", "T-SEMI", "T-LOOP", "T-DELTA", "T-DIRTY", "T-CANON", "T-INS", "T-MOVE", "T-DIAG", "T-FUNC", "T-AGE", "T-FLAT", "S-SIB", "S-LEAF", "S-NAV", "S-PRUNE"],
         "level": "translation_validation",
     },
-    "C02": {"rules": ["T-PLAN", "T-DIAG", "T-INS", "T-MOVE", "T-CANON", "T-LOOP", "T-API", "T-ALLOC", "T-FLAT", "S-SIB", "S-LEAF", "S-NAV"], "level": "translation_validation"},
-    "C03": {"rules": ["T-SEMI", "T-MOVE", "T-CANON", "T-LOOP", "T-INS", "T-DIAG", "T-AGE", "S-SIB", "S-LEAF", "S-PRUNE"], "level": "translation_validation"},
+    # soundness does not depend on which ages an atom is served from
+    "C02": {"irrelevant_keys": ["T-PLAN:atom:age-widened", "T-PLAN:atom:age-narrowed"], "rules": ["T-PLAN", "T-DIAG", "T-INS", "T-MOVE", "T-CANON", "T-LOOP", "T-API", "T-ALLOC", "T-FLAT", "S-SIB", "S-LEAF", "S-NAV"], "level": "translation_validation"},
+    "C03": {"irrelevant_keys": ["T-SEMI:family:cover:overlap", "T-SEMI:family:cover:all-old-enumerated"], "rules": ["T-SEMI", "T-MOVE", "T-CANON", "T-LOOP", "T-INS", "T-DIAG", "T-AGE", "S-SIB", "S-LEAF", "S-PRUNE"], "level": "translation_validation"},
     "C04": {"rules": ["T-FAM", "T-INS", "T-MOVE", "T-CANON", "T-DIAG", "T-DIRTY", "T-API", "T-ENUM", "T-MOR", "S-SIB", "S-LEAF", "S-NAV"], "level": "translation_validation"},
     "C05": {"rules": ["T-API", "T-INS", "M-UF"], "level": "other"},
     "C08": {"rules": ["S-SIB", "S-PRUNE", "S-LEAF", "S-SET", "T-PRUNE-USE", "M-FREEZE", "M-UNSAFE", "M-MAPFREE", "M-SHARE", "M-CBORDER"], "level": "other"},
